@@ -179,3 +179,24 @@ PROPS["C10"] = {
     "assumptions": ["libsodium as the reference verifier"],
     "partial": "string layer proved; 'encodes the hash actually used' relies on C09 for the hash value",
 }
+
+PROPS["C16"] = {
+    "theorems": [
+        {"name": "C16_visit_seq", "status": "proved", "statement": "visit_seq N elems = Ok elems iff |elems| = N, else Err (every N, every sequence)"},
+        {"name": "C16_visit_bytes", "status": "proved", "statement": "visit_bytes N v = Ok v iff |v| = N, else Err"},
+        {"name": "C16_secretbox_bytes_roundtrip", "status": "proved", "statement": "from_bytes (to_bytes (tag, data)) = Ok (tag, data), any payload"},
+        {"name": "C16_box_bytes_roundtrip", "status": "proved", "statement": "same for the public-key box"},
+        {"name": "C16_sealed_bytes_roundtrip", "status": "proved", "statement": "same for the sealed box (epk || tag || data)"},
+        {"name": "C16_signed_bytes_roundtrip", "status": "proved", "statement": "same for signed messages (sig || msg)"},
+        {"name": "C16_short_bytes_rejected", "status": "proved", "statement": "inputs shorter than the fixed overhead are rejected by every from_bytes"},
+        {"name": "C16_example", "status": "proved", "statement": "non-vacuity by vm_compute"},
+    ],
+    "builds": ["stable"],
+    "rule": "for N in {8,16,24,32,64}: every element count 0..=2N as a JSON array (serde_json -> visit_seq) and as a bincode byte string (-> visit_bytes) and through TryFrom; objects DryocSecretBox, DryocBox (plain and sealed), SignedMessage with every payload length 0..=80 (thorough 300): "
+            "to_bytes = libsodium layout, from_bytes / from_parts / JSON / bincode round trips reproduce an equal object that still decrypts / verifies; KeyPair, SigningKeyPair, kx Session, Kdf, PwHash round trips; fixed-length fields inside objects with one element dropped / added (JSON) or a 15 / 17-byte string (bincode); "
+            "visitor and from_bytes results compared with the extracted model (correspondence). Stack and Vec containers (heap / locked: nightly check C18/C14 family). non-trivial: all",
+    "modelled": ["serde_json (arrays -> visit_seq, element by element) and bincode (length-prefixed bytes -> visit_bytes) are external: assumption validated by correspondence with the real crates",
+                 "derived Serialize/Deserialize impls of the object types are exercised, not modelled"],
+    "assumptions": [],
+    "partial": "HeapBytes / Locked containers (nightly) are not covered by this check",
+}
